@@ -1,5 +1,6 @@
 (* C04: model of PacketHeaders | converted model of SlicedPacket | converted
-   model of the slicing algorithm cut at the first refilled IPv6 extension *)
+   model of the slicing algorithm cut at the first refilled IPv6 extension | ... |
+   model of LaxPacketHeaders;  `sll <hex>`: model of LaxPacketHeaders::from_linux_sll *)
 open M_c04
 (*INCLUDE pfmt.ml.in*)
 
@@ -50,10 +51,49 @@ let hvres = function
   | HBug s -> "BUG " ^ sn s
 let hvw = function HOk v -> hvwins v | _ -> "-"
 
+(* lax struct family: the format of harness/src/hdrlax.rs *)
+let lhvlink = function
+  | None -> "none"
+  | Some (HvlEthernet2 w) -> "eth(" ^ wlen w ^ ")"
+  | Some (HvlLinuxSll w) -> "sll(" ^ wlen w ^ ")"
+let sllpt = function
+  | SllIgnored v -> "ignored:" ^ sn v | SllNetlink v -> "netlink:" ^ sn v | SllGre v -> "gre:" ^ sn v
+  | SllEtherType v -> "ethertype:" ^ sn v | SllNonstandard v -> "nonstandard:" ^ sn v
+let lhvpayload = function
+  | LHvpEmpty -> "empty"
+  | LHvpEther e ->
+    Printf.sprintf "ether(%s,%s,%s,%s)" (sn e.lvep_type) (src_tag e.lvep_src) (b01 e.lvep_incomplete) (win e.lvep_win)
+  | LHvpMacsecMod (i, w) -> Printf.sprintf "macsecmod(%s,%s)" (b01 i) (win w)
+  | LHvpIp p ->
+    Printf.sprintf "ip(%s,%s,%s,%s,%s)" (sn p.lvip_number) (b01 p.lvip_frag) (src_tag p.lvip_src)
+      (b01 p.lvip_incomplete) (win p.lvip_win)
+  | LHvpUdp (i, w) -> Printf.sprintf "udp(%s,%s)" (b01 i) (win w)
+  | LHvpTcp (i, w) -> Printf.sprintf "tcp(%s,%s)" (b01 i) (win w)
+  | LHvpIcmpv4 (i, w) -> Printf.sprintf "icmp4(%s,%s)" (b01 i) (win w)
+  | LHvpIcmpv6 (i, w) -> Printf.sprintf "icmp6(%s,%s)" (b01 i) (win w)
+  | LHvpLinuxSll (pt, w) -> Printf.sprintf "sll(%s,%s)" (sllpt pt) (win w)
+let lstop = function None -> "none" | Some (e, l) -> layer_tag l ^ ":" ^ slice_err e
+let lhvres = function
+  | LHOk v ->
+    Printf.sprintf "ok[link=%s,exts=[%s],net=%s,tr=%s,pl=%s,stop=%s]" (lhvlink v.lhv_link)
+      (String.concat ";" (List.map hvext v.lhv_exts)) (hvnet v.lhv_net) (hvtr v.lhv_tr)
+      (lhvpayload v.lhv_payload) (lstop v.lhv_stop)
+  | LHErr e -> "err(" ^ slice_err e ^ ")"
+  | LHBug s -> "BUG " ^ sn s
+
 let run (line : string) : string =
   match Conv.split_ws line with
+  | ["sll"; h] ->
+    (* only LaxPacketHeaders has a Linux SLL entry point *)
+    "sll H=" ^ lhvres (lhvres_of_h (LaxPacketHeaders.from_linux_sll (bytes_of_hex h)))
   | [entry; h] ->
     let bs = bytes_of_hex h in
+    let lm =
+      if entry = "eth" then LaxPacketHeaders.from_ethernet bs
+      else if entry = "ip" then LaxPacketHeaders.from_ip bs
+      else if String.length entry > 3 && String.sub entry 0 3 = "et:" then
+        LaxPacketHeaders.from_ether_type (n_of_z (Z.of_string (String.sub entry 3 (String.length entry - 3)))) bs
+      else failwith "entry" in
     let hm, sm, cm =
       if entry = "eth" then
         (PacketHeaders.from_ethernet_slice bs, SlicedPacket.from_ethernet bs, Cut.from_ethernet true bs)
@@ -65,8 +105,8 @@ let run (line : string) : string =
       end else failwith "entry"
     in
     let hv = hvres_of_h hm and sv = hvres_of_s sm and cv = hvres_of_s cm in
-    Printf.sprintf "%s | %s | %s | stopped=%s | hw=%s | cw=%s" (hvres hv) (hvres sv) (hvres cv)
-      (b01 (stopped_at_ext cm)) (hvw hv) (hvw cv)
+    Printf.sprintf "%s | %s | %s | stopped=%s | hw=%s | cw=%s | laxH=%s" (hvres hv) (hvres sv) (hvres cv)
+      (b01 (stopped_at_ext cm)) (hvw hv) (hvw cv) (lhvres (lhvres_of_h lm))
   | _ -> failwith ("bad c04 case: " ^ line)
 
 let () =
